@@ -294,12 +294,22 @@ class Paths:
         return (sn["text"] if sn is not None else None,
                 on["attrs"].get((None, "k")) if on is not None else None)
 
-    def reply(self, rng, s, soap12=False):
+    def reply(self, rng, s, soap12=False, enc=None):
         envns = xmlread.ENV12 if soap12 else xmlread.ENV11
         body = "<r>%s</r><o k=\"%s\"/><v a=\"1\">%s</v>" % (write_encoded(rng, s, False), write_encoded(rng, s, True),
                                                           write_encoded(rng, s, False))
         doc = ('<e:Envelope xmlns:e="%s"><e:Body><fResponse xmlns="%s">%s</fResponse></e:Body></e:Envelope>'
-               % (envns, wsdlkit.TNS, body)).encode("utf-8")
+               % (envns, wsdlkit.TNS, body))
+        # the reply says which encoding it is in: UTF-8 (declared or not), UTF-16, ISO-8859-1 where it can hold the text
+        enc = enc or rng.choice(["utf-8", "utf-8", "utf-8-declared", "utf-16", "iso-8859-1"])
+        try:
+            if enc == "utf-8":
+                doc = doc.encode("utf-8")
+            else:
+                label = {"utf-8-declared": "UTF-8", "utf-16": "UTF-16", "iso-8859-1": "ISO-8859-1"}[enc]
+                doc = ('<?xml version="1.0" encoding="%s"?>' % label + doc).encode(label)
+        except UnicodeEncodeError:
+            doc = doc.encode("utf-8")
         # the writer itself must be right: expat is the judge of what the document contains
         root = xmlread.parse(doc)
         fr = xmlread.find1(xmlread.find1(root, "Body"), "fResponse")
@@ -332,7 +342,8 @@ def check_string(ctx, paths, s, model, deep):
         if txt != s:
             ctx.fail("element text not recovered (%s)" % path, inp, txt, s, direction="request", position="text",
                      path=path)
-        if att is not None and att != s:
+        if att != s and not (att is None and isinstance(txt, str) and txt.startswith("!")):
+            # (an attribute set to the empty string is there, empty)
             ctx.fail("attribute value not recovered (%s)" % path, inp, att, s, direction="request",
                      position="attr", path=path)
     ctx.case(("read-after-write", s), nontrivial)
@@ -359,24 +370,31 @@ def check_string(ctx, paths, s, model, deep):
         if txt != s:
             ctx.fail("request element text not recovered", inp, txt, s, direction="request", position="text",
                      path="envelope pretty=%s" % pretty)
-        if att != s and not (s == "" and att is None):
+        if att != s:
             ctx.fail("request attribute value not recovered", inp, att, s, direction="request", position="attr",
                      path="envelope pretty=%s" % pretty)
     # 4. oracle: reply written by an independent writer
     if s and s.strip(" \t\n\r") == s or True:
         for soap12 in (False, True):
-            doc, (r, k, v) = paths.reply(ctx.rng, s, soap12)
+            try:
+                doc, (r, k, v) = paths.reply(ctx.rng, s, soap12)
+            except AssertionError:
+                raise
+            except Exception as e:
+                ctx.fail("reply element text not decoded to the document's string", {"s": s},
+                         "%s: %s" % (type(e).__name__, e), s, direction="reply", position="text")
+                continue
             if v != s and not (s == "" and v in (None, "")):
                 ctx.fail("text of a reply element that also carries an attribute is not decoded to the document's string",
-                         {"s": s, "doc": doc.decode("utf-8")}, v, s, direction="reply", position="text+attr")
+                         {"s": s, "doc": doc.decode("utf-8", "replace") if not doc.startswith((b"\xff\xfe", b"\xfe\xff")) else doc.decode("utf-16")}, v, s, direction="reply", position="text+attr")
             ctx.case(("rep", soap12, s), nontrivial)
             exp_r = s
             if r != exp_r and not (s == "" and r in (None, "")):
                 ctx.fail("reply element text not decoded to the document's string",
-                         {"s": s, "doc": doc.decode("utf-8")}, r, s, direction="reply", position="text")
+                         {"s": s, "doc": doc.decode("utf-8", "replace") if not doc.startswith((b"\xff\xfe", b"\xfe\xff")) else doc.decode("utf-16")}, r, s, direction="reply", position="text")
             if k != s:       # (an attribute that is present and empty is the empty string, not None)
                 ctx.fail("reply attribute value not decoded to the document's string",
-                         {"s": s, "doc": doc.decode("utf-8")}, k, s, direction="reply", position="attr")
+                         {"s": s, "doc": doc.decode("utf-8", "replace") if not doc.startswith((b"\xff\xfe", b"\xfe\xff")) else doc.decode("utf-16")}, k, s, direction="reply", position="attr")
 
 
 def text_ops(ctx):
@@ -439,6 +457,21 @@ def run(ctx, deep_budget=None):
               "xsd:int", "ns9:x", ":x", "a:"):
         ctx.dist["prefix-like"] += 1
         check_string(ctx, paths, s, None, True)
+    # replies in every encoding a document may declare (the value is the document's string, whatever bytes spell it)
+    for s in ("\u00e9 x", "caf\u00e9 & cr\u00e8me", "\u20acuro", "\U0001d11e", "plain", "\u00fc<\u00df>"):
+        for enc in ("utf-8-declared", "utf-16", "iso-8859-1"):
+            for soap12 in (False, True):
+                ctx.case(("reply-encoding", enc, soap12, s), True)
+                ctx.dist["reply-encoding=" + enc] += 1
+                try:
+                    doc, (r, k, v) = paths.reply(ctx.rng, s, soap12, enc=enc)
+                except Exception as e:
+                    ctx.fail("reply element text not decoded to the document's string", {"s": s, "encoding": enc},
+                             "%s: %s" % (type(e).__name__, e), s, direction="reply", position="text")
+                    continue
+                if (r, k, v) != (s, s, s):
+                    ctx.fail("reply element text not decoded to the document's string", {"s": s, "encoding": enc},
+                             [r, k, v], [s, s, s], direction="reply", position="text")
     text_ops(ctx)
     ctx.exhaustive = False
     ctx.sample({"string": "a<b&amp; \"q\"", "paths": ["Encoder.encode/decode vs model", "Element.plain/str -> expat + suds parser",
